@@ -80,6 +80,7 @@ func cachehookMain(args []string) int {
 			return
 		}
 		hid, opts := runner.ParseHeader(header)
+		delete(opts, "slowstore") // the delays that make goroutines overlap in the race engine serve no purpose here
 		var setup []string
 		threads := map[int][]string{}
 		for _, o := range ops {
